@@ -116,6 +116,38 @@ func main() {
 		workerMain(os.Args[2:])
 	case "exec":
 		execMain(os.Args[2:])
+	case "roundtrip":
+		// every generated scenario must execute identically from its run file (JSON round trip)
+		fs := flag.NewFlagSet("roundtrip", flag.ExitOnError)
+		prop := fs.String("prop", "C14", "")
+		seed := fs.Uint64("seed", 1, "")
+		n := fs.Int("n", 50, "")
+		tier := fs.String("tier", "quick", "")
+		fs.Parse(os.Args[2:])
+		bad := 0
+		for k := 0; k < *n; k++ {
+			sc := genFor(*prop, mix64(*seed, uint64(k)), *tier)
+			if sc == nil {
+				continue
+			}
+			r1 := execFor(sc, runOpts{})
+			b, _ := json.Marshal(sc)
+			var sc2 Scenario
+			if err := json.Unmarshal(b, &sc2); err != nil {
+				fmt.Println("unmarshal:", err)
+				bad++
+				continue
+			}
+			r2 := execFor(&sc2, runOpts{})
+			if r1.Hash != r2.Hash || r1.Steps != r2.Steps || len(r1.Violations) != len(r2.Violations) {
+				fmt.Printf("ROUNDTRIP-DIFF property=%s run-seed=%d hash %x/%x steps %d/%d\n", *prop, sc.Seed, r1.Hash, r2.Hash, r1.Steps, r2.Steps)
+				bad++
+			}
+		}
+		fmt.Printf("roundtrip %s: %d scenarios, %d differ\n", *prop, *n, bad)
+		if bad > 0 {
+			os.Exit(3)
+		}
 	case "gen":
 		fs := flag.NewFlagSet("gen", flag.ExitOnError)
 		prop := fs.String("prop", "C14", "")
